@@ -3,7 +3,7 @@ import DoitModel.Model.Delayed
 
 What `TaskControl.process(task_selection)` does to the task table when a command-line word is not the name of a
 task or of a known target: a sub-task of a delayed creator gets a placeholder task sharing the creator's loader
-object (`loader.basename` is set); otherwise every task that carries a loader whose `target_regex` matches the word
+object (`loader.basename` is set; such a placeholder is not a candidate of the regex loop — `skipSub`); otherwise every task that carries a loader whose `target_regex` matches the word
 (or every one, with `--auto-delayed-regex`) gets a `_regex_target_<word>:<task>` placeholder, all of them in one
 `RegexGroup`.  Regular-expression matching is the oracle `matches`; the name of a new placeholder is the oracle
 `rxName` (string formatting).  Words are pre-split by the harness (`base` = the part before the first `:`);
@@ -25,6 +25,7 @@ structure Pre where
   hasRegex : LId → Bool                      -- `loader.target_regex` is set
   rxMatch : LId → Name → Bool              -- `re.match(loader.target_regex, word)`
   auto : Bool := false                       -- `--auto-delayed-regex`
+  skipSub : Bool := true                     -- false: the pinned `_filter_tasks` (a sub-task placeholder is matched too)
   rxName : Name → Name → Name                -- id of the string `_regex_target_<word>:<task>`
 
 structure FState where
@@ -44,17 +45,25 @@ def execDeps (pre : Pre) (l : LId) : List Name :=
   | some d => [d]
   | none => []
 
+/-- `task.loader.basename not in (None, task.name)`: the placeholder of a sub-task selected by name (it shares the
+    loader object of its creator's task, which is matched on its own) -/
+def isSubPlaceholder (baseOf : LId → Option Name) (t : Name) (l : LId) : Bool :=
+  match baseOf l with
+  | none => false
+  | some b => b != t
+
 /-- the tasks whose loader matches the word (`delayed_matched`), in table order, with their loader -/
-def matched (pre : Pre) (w : Name) : List (Name × TDef) → List (Name × LId)
+def matched (pre : Pre) (baseOf : LId → Option Name) (w : Name) : List (Name × TDef) → List (Name × LId)
   | [] => []
   | (t, td) :: r =>
     match td.loader with
-    | none => matched pre w r
+    | none => matched pre baseOf w r
     | some l =>
-      if td.isRx then matched pre w r
-      else if pre.hasRegex l then (if pre.rxMatch l w then (t, l) :: matched pre w r else matched pre w r)
-      else if pre.auto then (t, l) :: matched pre w r
-      else matched pre w r
+      if td.isRx then matched pre baseOf w r
+      else if pre.skipSub && isSubPlaceholder baseOf t l then matched pre baseOf w r
+      else if pre.hasRegex l then (if pre.rxMatch l w then (t, l) :: matched pre baseOf w r else matched pre baseOf w r)
+      else if pre.auto then (t, l) :: matched pre baseOf w r
+      else matched pre baseOf w r
 
 /-- `for task in delayed_matched:` create the `_regex_target…` placeholder -/
 def addRx (pre : Pre) (w : Name) (g : GId) : List (Name × LId) → FState → FState
@@ -88,9 +97,9 @@ def filterWord (pre : Pre) (st : FState) (wd : Word) : Option FState :=
                   selected := st.selected ++ [wd.w],
                   nextOid := st.nextOid + 1 })
       | none =>
-        if matched pre wd.w st.tasks = [] then none
-        else some (addRx pre wd.w st.groups.length (matched pre wd.w st.tasks)
-                    { st with groups := st.groups ++ [(wd.w, dedup ((matched pre wd.w st.tasks).map Prod.fst))] })
+        if matched pre st.baseOf wd.w st.tasks = [] then none
+        else some (addRx pre wd.w st.groups.length (matched pre st.baseOf wd.w st.tasks)
+                    { st with groups := st.groups ++ [(wd.w, dedup ((matched pre st.baseOf wd.w st.tasks).map Prod.fst))] })
 
 def filterWords (pre : Pre) : FState → List Word → Sum Name FState
   | st, [] => .inr st
